@@ -75,7 +75,10 @@ Mark == (l = Len(Tr.events) + 1 /\ pc.phase = "done") => TLCSet(1, TLCGet(1) \cu
 Prog == TLCSet(2, [TLCGet(2) EXCEPT ![tid] = IF @ < l - 1 THEN l - 1 ELSE @])
 \* sampled evaluations of construct_vs: equal to the independent GROMACS formula and equivariant under a random rigid motion
 BadVS == { i \in 1..Len(Doc.vs) : ~(Doc.vs[i].matches_gmx /\ Doc.vs[i].equivariant) }
-Accepted == /\ IF TLCGet(1) = 1..Len(Traces) THEN TRUE
+\* sampled calls of optimize_geometry: a reported success implies every bond / constraint / angle / improper within tolerance
+BadOpt == { i \in 1..Len(Doc.opt) : Doc.opt[i].success /\ ~Doc.opt[i].targets_ok }
+Accepted == /\ IF BadOpt = {} THEN TRUE ELSE (PrintT(<<"REJECTEDOPT", ToJson(SetToSeq(BadOpt))>>) /\ FALSE)
+            /\ IF TLCGet(1) = 1..Len(Traces) THEN TRUE
                ELSE (PrintT(<<"REJECTED", ToJson(SetToSeq({<<t, TLCGet(2)[t]>> : t \in (1..Len(Traces)) \ TLCGet(1)}))>>) /\ FALSE)
             /\ IF BadVS = {} THEN TRUE ELSE (PrintT(<<"REJECTEDVS", ToJson(SetToSeq(BadVS))>>) /\ FALSE)
 =============================================================================
